@@ -240,12 +240,13 @@ class Ctx:
     # thorough-tier multiplier for the properties whose cases are cheap (keeps every thorough run at 1-7 minutes)
     THOROUGH_SCALE = dict(C01=3, C02=5, C03=5, C05=4, C08=4, C09=4, C10=4, C12=5, C13=3, C14=4, C17=4, C18=5, C19=4, C20=2)
 
+    DRIFT_SCALE_BY = dict(C06=2)   # file-system heavy cases
     DRIFT_SCALE = 4   # quick tier on a tree whose source text drifted from the recorded fingerprints
 
     def budget(self, quick, thorough):
         if self.tier == 'quick':
             if self.drift and isinstance(quick, int) and isinstance(thorough, int) and thorough >= 50 and quick >= 10:
-                return min(thorough, quick * self.DRIFT_SCALE)
+                return min(thorough, quick * self.DRIFT_SCALE_BY.get(self.prop, self.DRIFT_SCALE))
             return quick
         k = self.THOROUGH_SCALE.get(self.prop, 1)
         return thorough * k if isinstance(thorough, int) and thorough >= 50 else thorough
